@@ -107,3 +107,208 @@ def report(rep, rejects, what, names, extra):
             replay_obj["random"] = dict(extra, run=rec["run"], upto=rec["at"] + i - 1, seed=rec["seed"])
         rep.violation(key, f"{what}: step not allowed by VarRef ({b['why']} differs; expected result {b['expect']})",
                       replay_obj)
+
+
+_COV = __import__("re").compile(r"^<(\w+) line \d+, col \d+ to line \d+, col \d+ of module (\w+)(?: \([\d ]+\))?>: (\d+):(\d+)")
+
+
+def _coverage(r):
+    cov = {}
+    for line in r.lines:
+        m = _COV.match(line)
+        if m and m.group(1) != "Init":
+            cov[m.group(1)] = cov.get(m.group(1), 0) + int(m.group(4))
+    return cov
+
+
+def _count_ops(trace, counts):
+    """(op, scope, follow-up, result) -> number of steps executed on the real code"""
+    for rec in vlib.read_ndjson(trace):
+        for s in rec["steps"]:
+            op = s["op"]
+            k = "/".join(x for x in (op["op"], op.get("scope", op.get("kind", "")), op.get("then", ""),
+                                     s["res"]["st"]) if x)
+            counts[k] = counts.get(k, 0) + 1
+
+
+def _split(path, per):
+    """Split an ndjson file into pieces of `per` lines; yields the piece paths."""
+    k, n, out = 0, 0, None
+    with open(path) as f:
+        for line in f:
+            if out is None:
+                p = f"{path}.part{k}"
+                out = open(p, "w")
+            out.write(line)
+            n += 1
+            if n >= per:
+                out.close()
+                yield p
+                out, n, k = None, 0, k + 1
+    if out is not None:
+        out.close()
+        yield p
+
+
+def run(tier):
+    t0 = time.time()
+    wd = vlib.workdir(PID)
+    rep = vlib.Reporter(PID)
+    vlib.build_harness(PKG)
+    states = transitions = 0
+    actions = {}
+    samples = []
+    op_counts = {}
+    notes = []
+
+    # ---- P1 on the reference model: the property's invariants -------------
+    ref_cfgs = ["MC_VarRef.cfg", "MC_VarRef_pos.cfg"] + (["MC_VarRef_big.cfg"] if tier == "thorough" else [])
+    for cfg in ref_cfgs:
+        r = vlib.tlc("MC_VarRef", cfg, workers=8, timeout=2400)
+        vlib.tlc_must_pass(r, f"invariants of the reference model ({cfg})")
+        vlib.log(f"[p1] {cfg}: VarRef invariants hold on {r.distinct} states / {r.generated} transitions, "
+                 f"depth {r.depth}, {r.wall:.1f}s")
+        states += r.distinct
+        transitions += r.generated
+
+    # ---- P1 refinement + P2 replay of every (state, operation) pair -------
+    replayed_states = replayed_steps = 0
+    for cfg, names, vals, pos, tcfg in CONFIGS[tier]:
+        gen = os.path.join(wd, cfg + ".states.ndjson")
+        r = vlib.tlc("VarSet", cfg, workers=8, json_out=gen, coverage=(cfg == "MC_VarSet_q1.cfg"),
+                     timeout=3000, want_lines=True)
+        vlib.tlc_must_pass(r, f"VarSet refines VarRef ({cfg})")
+        vlib.log(f"[p1] {cfg}: refinement + representation invariant hold; {r.distinct} distinct states, "
+                 f"{r.generated} transitions, depth {r.depth}, {r.wall:.1f}s")
+        states += r.distinct
+        transitions += r.generated
+        for a, c in _coverage(r).items():
+            actions[a] = actions.get(a, 0) + c
+        if vlib.count_lines(gen) != r.distinct:
+            raise vlib.ToolError(f"{cfg}: {vlib.count_lines(gen)} state lines for {r.distinct} states")
+        nsteps = nrej = 0
+        tv = 0.0
+        for part in _split(gen, 4000):
+            trace = part + ".trace"
+            _, _, err = vlib.run_harness(PKG, ["replay", "--names", names, "--vals", vals, "--pos", pos,
+                                               "--in", part, "--out", trace])
+            stat = json.loads(err.strip().splitlines()[-1])
+            if stat["illegal_histories"]:
+                raise vlib.ToolError(f"{cfg}: harness could not replay {stat['illegal_histories']} histories")
+            replayed_states += stat["states"]
+            rejects, info = validate(trace, tcfg)
+            if info["steps"] != stat["steps"]:
+                raise vlib.ToolError(f"{cfg}: {info['steps']} steps in the trace, harness reported {stat['steps']}")
+            nsteps += info["steps"]
+            nrej += len(rejects)
+            tv += info["wall"]
+            report(rep, rejects, f"replay of {cfg}", names.split(","), None)
+            _count_ops(trace, op_counts)
+            if len(samples) < 2:
+                rec = next(r for i, r in enumerate(vlib.read_ndjson(trace)) if i == 40)
+                samples.append({"config": cfg, "history": rec["h"], "pre": rec["pre"], "step": rec["steps"][3]})
+            os.remove(part)
+            os.remove(trace)
+        os.remove(gen)
+        replayed_steps += nsteps
+        vlib.log(f"[p2] {cfg}: {nsteps} (state, op) steps on the real VariableSet validated against VarRef "
+                 f"in {tv:.1f}s ({nrej} rejected)")
+
+    # ---- the model of `unset` as the code is written (informational) ------
+    r = vlib.tlc("VarSet", "MC_VarSet_ascoded.cfg", workers=4, timeout=600)
+    if r.violation and "RefinesVarRef" in r.violation:
+        notes.append("MC_VarSet_ascoded: with unset modelled as variable.rs writes it (stack[index..]) the model "
+                     "does NOT refine VarRef (TLC counterexample) -- design-level view of finding F5")
+        vlib.log("[f5] unset modelled as coded: TLC finds the refinement counterexample (expected while F5 is open)")
+    elif r.ok:
+        notes.append("MC_VarSet_ascoded passes: unexpected")
+        vlib.log("NOTE: MC_VarSet_ascoded unexpectedly passes")
+    else:
+        vlib.tlc_must_pass(r, "MC_VarSet_ascoded")
+
+    # ---- P3: random long histories beyond the exhaustive bounds -----------
+    trace = os.path.join(wd, "random.trace.ndjson")
+    runs, steps = (20, 400) if tier == "quick" else (150, 1000)
+    rargs = {"vals": "a,b,c", "pos": "some", "maxdepth": 6}
+    vlib.run_harness(PKG, ["random", "--names", "x,y,z", "--vals", rargs["vals"], "--pos", rargs["pos"],
+                           "--maxdepth", rargs["maxdepth"], "--steps", steps, "--runs", runs, "--out", trace])
+    rejects, info = validate(trace, "Trace_VarSet_3.cfg")
+    report(rep, rejects, "random history", ["x", "y", "z"],
+           {"vals": rargs["vals"].split(","), "pos": rargs["pos"], "maxdepth": rargs["maxdepth"]})
+    _count_ops(trace, op_counts)
+    random_steps = info["steps"]
+    vlib.log(f"[p3] random histories: {random_steps} steps (3 names, depth <= 6) validated against VarRef "
+             f"in {info['wall']:.1f}s ({len(rejects)} rejected)")
+    rec = next(vlib.read_ndjson(trace))
+    samples.append({"config": "random", "pre": rec["pre"], "step": rec["steps"][0]})
+    os.remove(trace)
+
+    # ---- phase 2: through the language -------------------------------------
+    lang = {}
+    try:
+        from checks import c16_lang
+    except ImportError:
+        c16_lang = None
+    if c16_lang is not None:
+        lang = c16_lang.run(tier, rep, wd) or {}
+    else:
+        notes.append("phase 2 (scripts through the shell) not available")
+
+    rc = rep.finish()
+    unexercised = [a for a, c in actions.items() if c == 0]
+    cov = {
+        "states": states,
+        "transitions": transitions,
+        "traces_validated_against_impl": replayed_steps + random_steps + lang.get("validated", 0),
+        "samples": samples + lang.get("samples", []),
+        "evaluations": replayed_steps + random_steps + lang.get("validated", 0),
+        "distinct_nontrivial": replayed_steps,
+        "rule": "one step per (distinct state of the bounded VarSet model rebuilt on the real VariableSet, "
+                "operation of the alphabet); random-history steps and generated scripts counted separately",
+        "exhaustive": True,
+        "configs": [c[0] for c in CONFIGS[tier]] + ref_cfgs,
+        "replayed_states": replayed_states,
+        "replayed_steps": replayed_steps,
+        "random_history_steps": random_steps,
+        "tlc_action_coverage": actions,
+        "actions_not_exercised": unexercised,
+        "steps_by_operation_and_result": dict(sorted(op_counts.items())),
+        "known_finding_hits": {k: v[1] for k, v in rep.known_hits.items()},
+        "notes": notes,
+    }
+    cov.update({k: v for k, v in lang.items() if k not in ("validated", "samples")})
+    vlib.write_evidence(PID, tier, cov, time.time() - t0, violations=len(rep.violations), assumptions=[
+        "histories respect the API's typing: the base context is never popped (no guard exists for it)",
+        "contexts are pushed and popped through the public guards (push_context / drop), the per-level "
+        "observation pops clones of the set",
+        "values are scalars; quirks, locations and array values are outside the model",
+        "TLC 1.8.0 and the JSON community module are trusted",
+    ])
+    return rc
+
+
+def replay(path):
+    with open(path) as f:
+        obj = json.load(f)
+    rp = obj["replay"]
+    if rp.get("lang"):
+        from checks import c16_lang
+        return c16_lang.replay(path, obj)
+    wd = vlib.workdir(PID + "-replay")
+    src = os.path.join(wd, "in.ndjson")
+    t = os.path.join(wd, "one.ndjson")
+    line = {"names": rp["names"], "op": rp["op"]}
+    if "h" in rp:
+        line["h"] = rp["h"]
+    else:
+        line["random"] = rp["random"]
+    with open(src, "w") as f:
+        f.write(json.dumps(line) + "\n")
+    vlib.run_harness(PKG, ["redo", "--in", src, "--out", t])
+    rejects, _ = validate(t, f"Trace_VarSet_{len(rp['names'])}.cfg", shards=1)
+    if rejects:
+        print(f"rejected: {rejects[0][1]}")
+        print(f"VIOLATION property={PID} replay={path}")
+        return 1
+    print("accepted")
+    return 0
